@@ -624,6 +624,48 @@ class GArr:
         return "GArr(%d rows of %s)" % (len(self.rows), self.row_shape)
 
 
+class GList:
+    """Python list whose tail items are present only under a guard (state merging of branches that differ by
+    appended items).  Consumed by np.concatenate / np.vstack (-> guarded array) and by `for`."""
+
+    def __init__(self, items):
+        self.items = list(items)  # [(guard, value)]
+
+    def clone(self, memo):
+        from .symexec import clone_val
+
+        return GList([(g, clone_val(v, memo)) for g, v in self.items])
+
+    @staticmethod
+    def of(x):
+        return x if isinstance(x, GList) else GList([(True, v) for v in x])
+
+    def getattr(self, ex, st, name):
+        from . import symexec
+
+        if name == "append":
+            return symexec.BoundLib(self, name)
+        raise Unsupported("attribute %s of a guarded list" % name)
+
+    def method(self, ex, st, name, args):
+        if name == "append":
+            self.items.append((True, args[0]))
+            return None
+        raise Unsupported("method %s of a guarded list" % name)
+
+    def as_garr(self):
+        rows, rshape, kind = [], None, "f"
+        for g, v in self.items:
+            ga = GArr.of(v)
+            if rshape is None or ga.rows:
+                rshape = ga.row_shape
+            rows.extend((V.land(g, rg), r) for rg, r in ga.rows)
+        return GArr(rows, rshape, kind)
+
+    def __repr__(self):
+        return "GList(%d items)" % len(self.items)
+
+
 def same_elems(a, b):
     fa, fb = a.flat(), b.flat()
     if len(fa) != len(fb):
